@@ -215,12 +215,23 @@ ENUM_VOCAB = [("PUSH", "0"), ("PUSH", "1"), ("DUP1", None), ("DUP2", None), ("SW
               ("MLOAD", None), ("SLOAD", None), ("SSTORE", None)]
 
 
+ENUM_PREFIXES = [([("DUP1", None), ("DUP1", None), ("LOG0", None)], []), ([("DUP2", None), ("DUP2", None), ("SSTORE", None)], ["-storage"]),
+                 ([("SWAP2", None), ("DUP1", None), ("DUP1", None), ("DUP1", None), ("CALLDATACOPY", None)], [])]
+
+
 def enum_task(spec, summ):
     """Small-scope sweep: every block of at most three instructions over ENUM_VOCAB that starts with the task's instruction
     (operands come from the input stack), front-end only; bounds judged by the brute-force search alone."""
-    first = ENUM_VOCAB[spec["index"] - SWEEP_TASKS]
-    blocks = [[first]] + [[first, a] for a in ENUM_VOCAB] + [[first, a, b] for a in ENUM_VOCAB for b in ENUM_VOCAB]
-    flags = ["-length"] + [[], ["-push0"], ["-pop-uninterpreted"]][spec["index"] % 3]
+    k = spec["index"] - SWEEP_TASKS
+    if k < len(ENUM_VOCAB):
+        first = ENUM_VOCAB[k]
+        blocks = [[first]] + [[first, a] for a in ENUM_VOCAB] + [[first, a, b] for a in ENUM_VOCAB for b in ENUM_VOCAB]
+        flags = ["-length"] + [[], ["-push0"], ["-pop-uninterpreted"]][spec["index"] % 3]
+    else:
+        # sub-blocks that *follow a split instruction*: they start from a stack whose bottom they may never touch
+        prefix, flags = ENUM_PREFIXES[k - len(ENUM_VOCAB)]
+        blocks = [prefix + [a] for a in ENUM_VOCAB] + [prefix + [a, b] for a in ENUM_VOCAB for b in ENUM_VOCAB]
+        flags = ["-length"] + flags
     op = {"argv": flags, "blocks": [AJ.items_to_text(b, 2) for b in blocks]}
     st, specs = procs.run_sut(pipe.run_specs, op, cpu_s=600)
     if st != "ok":
@@ -228,17 +239,17 @@ def enum_task(spec, summ):
         return []
     recs = []
     for text, r in zip(op["blocks"], specs):
-        if "exc" in r or len(r["sfs"]) != 1:
+        if "exc" in r:
             continue
-        (key, sfs), = r["sfs"].items()
-        recs.append({"sfs": sfs, "results": [], "greedy": None, "sub_block": None, "key": key, "block_text": text})
+        for key, sfs in r["sfs"].items():
+            recs.append({"sfs": sfs, "results": [], "greedy": None, "sub_block": None, "key": key, "block_text": text})
     summ["probes"]["enumerated_blocks"] = len(recs)
     return evaluate({"argv": flags + ["-solver", "z3"], "max_len": 6}, recs, summ)
 
 
 def task(spec):
     summ = {"evals": 0, "keys": [], "probes": {}, "faults": {}, "sim_s": 0.0, "samples": [], "harness": 0, "inconclusive": 0}
-    if SWEEP_TASKS <= spec["index"] < SWEEP_TASKS + len(ENUM_VOCAB):
+    if SWEEP_TASKS <= spec["index"] < SWEEP_TASKS + len(ENUM_VOCAB) + len(ENUM_PREFIXES):
         viols = enum_task(spec, summ)
         seen = set()
         out = []
